@@ -154,6 +154,8 @@ NXP_PRODUCTS = {
     "NTAG215": (b"\x00\x04\x04\x02\x01\x00\x11\x03", 135, 0x3E),
     "NTAG216": (b"\x00\x04\x04\x02\x01\x00\x13\x03", 231, 0x6D),
     "MF0UL21": (b"\x00\x04\x03\x01\x01\x00\x0E\x03", 41, 0x10),
+    # NTAG203 has no GET_VERSION: the command is NAKed (one byte 00h)
+    "NTAG203": (b"\x00", 42, 0x12),
 }
 
 
